@@ -199,12 +199,19 @@ fmt_call(fmt_fn fn, const void *sa, size_t cap, const refs_t *r, char *got, size
 	return (rc);
 }
 
+static uint64_t v6_port_seq;	/* position in the enumeration of IPv6+port cases (same in every shard) */
 static void
 fmt_case(int with_port, const xaddr_t *x) {
 	const char *tgt = with_port ? "sa_addr_port_to_str" : "sa_addr_to_str";
 	fmt_fn fn = with_port ? sa_addr_port_to_str : sa_addr_to_str;
 	refs_t r; void *sa; size_t cap, top, gotlen = SENT, ret, first_ok = SENT; char got[160]; int rc, pass;
 
+	/* Capacities 0..2 cannot hold any bracketed IPv6 text, so what happens there cannot depend on the
+	 * address: they are tried on every 97th (thorough: 1009th) IPv6+port case of the enumeration only.
+	 * (Reason: a defect at such a capacity raises several ASan reports per case, ~1 ms each, and vh.h
+	 * stops a shard after 20000 reports.)  All other capacities are tried on every case. */
+	int tiny_caps = 1;
+	if (with_port && x->fam == AF_INET6) tiny_caps = (0 == (v6_port_seq ++ % (vh_thorough ? 1009u : 97u)));
 	if (!vh_begin(tgt)) return;
 	cur_x = *x; cur_with_port = with_port;
 	vh_publish_desc();
@@ -216,6 +223,7 @@ fmt_case(int with_port, const xaddr_t *x) {
 		size_t lo = pass ? STR_ADDR_LEN : 0, hi = pass ? STR_ADDR_LEN : top;
 		if (pass && STR_ADDR_LEN <= top) break;
 		for (cap = lo; cap <= hi; cap ++) {
+			if (cap < 3 && !tiny_caps) continue;
 			rc = fmt_call(fn, sa, cap, &r, got, &gotlen, &ret);
 			if (rc == 0) { if (first_ok == SENT) first_ok = cap; }
 			else {
